@@ -582,6 +582,7 @@ pub struct Universe {
     pub runs: u64,
     /// the universe can no longer be trusted for further runs
     pub poisoned: bool,
+    cpu_at_release: u64,
 }
 
 static LISTENER: AtomicI32 = AtomicI32::new(-1);
@@ -722,6 +723,7 @@ impl Universe {
             baseline_fds: Vec::new(),
             runs: 0,
             poisoned: false,
+            cpu_at_release: 0,
         };
         // bootstrap: answer everything with "continue" until all workers are
         // parked in NEXT_JOB and the launcher is parked
@@ -1624,6 +1626,8 @@ impl Universe {
 
     /// Wait for the thread that was just released to trap again.
     fn wait_next(&mut self, out: &mut RunOut, world: &mut Option<World>) -> bool {
+        let mut polls = 0u32;
+        let mut last_cpu: Option<u64> = None;
         loop {
             match seam::recv(self.listener, 10_000) {
                 Ok(Some(n)) => {
@@ -1648,8 +1652,43 @@ impl Universe {
                     return true;
                 }
                 Ok(None) => {
+                    // 10 s without a trap. On a badly overloaded machine the
+                    // released thread may simply not have been given the CPU:
+                    // it is a hang only if it is blocked in the kernel, or has
+                    // really burnt CPU time without trapping.
+                    polls += 1;
+                    let running: Vec<i32> = self.workers.iter().filter(|w| w.state == WState::Running).map(|w| w.tid).collect();
+                    let mut verdict = "blocked";
+                    for tid in &running {
+                        let pp = sys::PRISTINE_PROC.load(Ordering::Relaxed);
+                        let stat = sys::openat(pp, format!("self/task/{tid}/stat").as_bytes(), libc::O_RDONLY, 0).map(|fd| {
+                            let b = sys::read_fd_all(fd, 4096);
+                            sys::close(fd);
+                            String::from_utf8_lossy(&b).into_owned()
+                        });
+                        if let Ok(s) = stat {
+                            // fields after the ")" : state ... utime(14) stime(15)
+                            let rest: Vec<&str> = s.rsplit(')').next().unwrap_or("").split_whitespace().collect();
+                            let state = rest.first().copied().unwrap_or("?");
+                            let cpu: u64 = rest.get(11).and_then(|x| x.parse::<u64>().ok()).unwrap_or(0) + rest.get(12).and_then(|x| x.parse::<u64>().ok()).unwrap_or(0);
+                            // CPU ticks (1/100 s) consumed during the last 10 s poll interval
+                            let used = match last_cpu {
+                                Some(l) => cpu.saturating_sub(l),
+                                None => 0,
+                            };
+                            last_cpu = Some(cpu);
+                            if state == "R" && used < 800 {
+                                verdict = "starved"; // runnable, but was given less than 8 of the last 10 s of CPU
+                            } else if state == "R" {
+                                verdict = "spinning";
+                            }
+                        }
+                    }
+                    if verdict == "starved" && polls < 60 {
+                        continue;
+                    }
                     out.hang = true;
-                    out.find("hang", "a caller thread made no system call for 10 s".into(), out.steps);
+                    out.find("hang", format!("a caller thread made no system call for {} s ({verdict})", polls * 10), out.steps);
                     return false;
                 }
                 Err(e) => {
